@@ -69,19 +69,66 @@ func (st *state) loader(load, fetch, clear *core.Fn) {
 		c.Undecidedf("R2.newest", "LoadCheckpoint/fetch", fas.Pos(), "fetchCheckpoint is not called in a range loop with named results")
 		return
 	}
-	// the loop ranges over the result of ParseKeyspace and looks at every database
-	okList := false
-	mpExpr := lift(loop.X)
-	if mpExpr != nil {
-		if d, ok := tt.SingleDef(info, loadView.Body, tt.Resolve(info, loadView.Body, mpExpr, 6)); ok && d.Index == 0 {
+	// the loop ranges over the result of ParseKeyspace (the map itself, or a slice filled with its
+	// keys) and looks at every database
+	fromKeyspace := func(e ast.Expr) bool {
+		if e == nil {
+			return false
+		}
+		if d, ok := tt.SingleDef(info, loadView.Body, tt.Resolve(info, loadView.Body, e, 6)); ok && d.Index == 0 {
 			if call, ok := ast.Unparen(d.Rhs).(*ast.CallExpr); ok && core.IsFunc(core.CalleeFunc(info, call), pkgUtils, "", "ParseKeyspace") {
-				okList = true
+				return true
 			}
 		}
+		return false
 	}
-	dbKey := localObj(info, loop.Key)
+	mpExpr := lift(loop.X)
+	okList := fromKeyspace(mpExpr)
+	dbElem := loop.Key
+	if _, isMap := info.TypeOf(loop.X).Underlying().(*types.Map); !isMap {
+		dbElem = loop.Value
+		// a slice of the keys: every definition of it is empty / make / append(list, key of a range over the map)
+		if lo := localObj(info, tt.Resolve(info, body, loop.X, 3)); lo != nil {
+			filled := false
+			okDefs := true
+			for _, d := range tt.DefsOf(info, body, lo) {
+				switch {
+				case d.Rhs == nil:
+				case d.Index != -1:
+					okDefs = false
+				default:
+					rhs := ast.Unparen(d.Rhs)
+					if call, ok := rhs.(*ast.CallExpr); ok {
+						if id, ok := call.Fun.(*ast.Ident); ok && id.Name == "make" {
+							continue
+						}
+						if id, ok := call.Fun.(*ast.Ident); ok && id.Name == "append" && len(call.Args) == 2 && localObj(info, call.Args[0]) == lo {
+							if kd, ok := tt.SingleDef(info, body, call.Args[1]); ok && kd.Range != nil && kd.IsKey && fromKeyspace(lift(kd.Range.X)) {
+								filled = true
+								mpExpr = lift(kd.Range.X)
+								continue
+							}
+						}
+					}
+					if cl, ok := rhs.(*ast.CompositeLit); ok && len(cl.Elts) == 0 {
+						continue
+					}
+					okDefs = false
+				}
+			}
+			okList = okDefs && filled
+		}
+	}
+	dbKey := localObj(info, dbElem)
 	okDb := dbKey != nil && len(calls[0].Args) == 4 && core.Mentions(info, calls[0].Args[2], dbKey)
-	c.Check("R2.newest", "LoadCheckpoint/every-database", loop.Pos(), okList && okDb, "fetchCheckpoint is called for every database listed by ParseKeyspace(info keyspace), with that database")
+	switch {
+	case okList && okDb:
+		c.Okf("R2.newest", "LoadCheckpoint/every-database", loop.Pos(), "fetchCheckpoint is called for every database listed by ParseKeyspace(info keyspace), with that database")
+	case !okDb && dbKey != nil:
+		c.Failf("R2.newest", "LoadCheckpoint/every-database", loop.Pos(), "fetchCheckpoint is not called with the database of the iteration (`%s`): the checkpoints of the other databases are never looked at", c.Src(calls[0].Args[2]))
+	default:
+		c.Undecidedf("R2.newest", "LoadCheckpoint/every-database", loop.Pos(), "cannot relate the list of databases `%s` to ParseKeyspace(info keyspace)", c.Src(loop.X))
+	}
 	early := ""
 	core.Inspect(loop.Body, func(n ast.Node) bool {
 		switch s := n.(type) {
@@ -111,9 +158,25 @@ func (st *state) loader(load, fetch, clear *core.Fn) {
 	})
 	c.Check("R2.newest", "LoadCheckpoint/no-early-exit", loop.Pos(), early == "", "the scan over the databases must not stop early (break / non-error return `"+early+"`): a newer checkpoint in a database visited later would be missed")
 
+	// a recorded value lives in a local variable or in a field of a local record (`best.offset`)
+	type car struct {
+		obj   types.Object
+		field string
+	}
+	carOf := func(e ast.Expr) car {
+		if o := localObj(info, e); o != nil {
+			return car{obj: o}
+		}
+		if sel, ok := ast.Unparen(e).(*ast.SelectorExpr); ok && core.FieldOf(info, sel) != nil {
+			if o := localObj(info, sel.X); o != nil {
+				return car{obj: o, field: sel.Sel.Name}
+			}
+		}
+		return car{}
+	}
 	// the comparison fetched-offset REL newest
 	var cmp *ast.BinaryExpr
-	var newest types.Object
+	var newest car
 	rel := token.ILLEGAL
 	mirror := map[token.Token]token.Token{token.LSS: token.GTR, token.GTR: token.LSS, token.LEQ: token.GEQ, token.GEQ: token.LEQ}
 	core.Inspect(loop.Body, func(n ast.Node) bool {
@@ -121,11 +184,11 @@ func (st *state) loader(load, fetch, clear *core.Fn) {
 		if !ok || mirror[be.Op] == 0 {
 			return true
 		}
-		l, r := localObj(info, be.X), localObj(info, be.Y)
+		l, r := carOf(be.X), carOf(be.Y)
 		switch {
-		case l == fr[1] && r != nil && r != fr[1]:
+		case l.obj == fr[1] && l.field == "" && r.obj != nil && r.obj != fr[1]:
 			cmp, newest, rel = be, r, be.Op
-		case r == fr[1] && l != nil && l != fr[1]:
+		case r.obj == fr[1] && r.field == "" && l.obj != nil && l.obj != fr[1]:
 			cmp, newest, rel = be, l, mirror[be.Op]
 		}
 		return true
@@ -140,20 +203,41 @@ func (st *state) loader(load, fetch, clear *core.Fn) {
 	recName := []string{"run id", "offset", "version", "db"}
 	src := []types.Object{fr[0], fr[1], fr[2], dbKey}
 	rec := make([]types.Object, 4)
+	recCar := make([]car, 4)
 	recAssign := make([]ast.Node, 4)
-	rec[1] = newest
+	recCar[1] = newest
 	for _, p := range g.Points(func(n ast.Node) bool { _, ok := n.(*ast.AssignStmt); return ok }) {
 		as := p.Node().(*ast.AssignStmt)
 		if len(as.Lhs) != len(as.Rhs) || x.LoopOf(as) != ast.Stmt(loop) {
 			continue
 		}
 		for i := range as.Lhs { // also a tuple assignment `a, b, c, d = w, x, y, z`
-			l, r := localObj(info, as.Lhs[i]), localObj(info, as.Rhs[i])
-			for k := range src {
-				if r != nil && r == src[k] && l != nil && (k != 1 || l == newest) {
-					rec[k], recAssign[k] = l, as
+			note := func(l car, rhs ast.Expr) {
+				r := localObj(info, rhs)
+				for k := range src {
+					if r != nil && r == src[k] && l.obj != nil && (k != 1 || l == newest) {
+						recCar[k], recAssign[k] = l, as
+					}
 				}
 			}
+			note(carOf(as.Lhs[i]), as.Rhs[i])
+			// a record assigned as a whole: best = candidate{runId: runId, offset: offset, ...}
+			if lit, ok := ast.Unparen(as.Rhs[i]).(*ast.CompositeLit); ok {
+				if lo := localObj(info, as.Lhs[i]); lo != nil {
+					for _, el := range lit.Elts {
+						if kv, ok := el.(*ast.KeyValueExpr); ok {
+							if id, ok := kv.Key.(*ast.Ident); ok {
+								note(car{obj: lo, field: id.Name}, kv.Value)
+							}
+						}
+					}
+				}
+			}
+		}
+	}
+	for k := range recCar {
+		if recCar[k].field == "" {
+			rec[k] = recCar[k].obj
 		}
 	}
 	// guard clause form: `if offset <= newest { continue }` records under the negated comparison
@@ -211,17 +295,31 @@ func (st *state) loader(load, fetch, clear *core.Fn) {
 		}
 		c.Check("R2.newest", key, recAssign[k].Pos(), ok && together, fmt.Sprintf("the %s must be recorded exactly when a greater offset is found (together with the offset): otherwise the returned %s belongs to a different checkpoint than the returned offset", recName[k], recName[k]), w...)
 	}
-	if rec[1] != nil {
+	if newest.obj != nil {
 		init := int64(0)
 		found := false
-		for _, d := range tt.DefsOf(info, body, rec[1]) {
-			// the definition before the loop: `var newest = -1`, `newest := -1`, `offset, version = -1, -1`
+		for _, d := range tt.DefsOf(info, body, newest.obj) {
+			// the definition before the loop: `var newest = -1`, `newest := -1`, `offset, version = -1, -1`,
+			// `best := candidate{offset: -1}`
 			if st, isStmt := d.Stmt.(ast.Stmt); isStmt && x.LoopOf(st) == ast.Stmt(loop) {
 				continue
 			}
-			if d.Rhs != nil && d.Index == -1 {
+			if d.Rhs == nil || d.Index != -1 {
+				continue
+			}
+			if newest.field == "" {
 				if v, isConst := core.IntConst(info, d.Rhs); isConst {
 					init, found = v, true
+				}
+			} else if lit, ok := ast.Unparen(d.Rhs).(*ast.CompositeLit); ok {
+				for _, el := range lit.Elts {
+					if kv, ok := el.(*ast.KeyValueExpr); ok {
+						if id, ok := kv.Key.(*ast.Ident); ok && id.Name == newest.field {
+							if v, isConst := core.IntConst(info, kv.Value); isConst {
+								init, found = v, true
+							}
+						}
+					}
 				}
 			}
 		}
@@ -231,7 +329,7 @@ func (st *state) loader(load, fetch, clear *core.Fn) {
 			c.Undecidedf("R2.newest", "LoadCheckpoint/newest-starts-at--1", fn.Decl.Pos(), "no constant initial value of the running maximum")
 		}
 	}
-	if rec[0] == nil || rec[2] == nil || rec[3] == nil {
+	if recCar[0].obj == nil || recCar[2].obj == nil || recCar[3].obj == nil {
 		return
 	}
 
@@ -243,10 +341,16 @@ func (st *state) loader(load, fetch, clear *core.Fn) {
 			if !ok || len(as.Lhs) != len(as.Rhs) || x.LoopOf(as) == ast.Stmt(loop) {
 				return true
 			}
+			plain := func(e ast.Expr) car { // the carrier itself, not an expression over it
+				if id := rootIdent(info, e); id != nil && ast.Expr(id) != ast.Unparen(e) {
+					return car{}
+				}
+				return carOf(e)
+			}
 			matched := 0
 			for i := range as.Rhs {
-				for k := range rec {
-					if r := localObj(info, as.Rhs[i]); r != nil && r == rec[k] && rootIdent(info, as.Rhs[i]) == ast.Unparen(as.Rhs[i]) {
+				for k := range recCar {
+					if r := plain(as.Rhs[i]); r.obj != nil && r == recCar[k] {
 						matched++
 					}
 				}
@@ -255,16 +359,26 @@ func (st *state) loader(load, fetch, clear *core.Fn) {
 				return true // a copy of the whole record, not a single use
 			}
 			for i := range as.Rhs {
-				for k := range rec {
-					if r := localObj(info, as.Rhs[i]); r != nil && r == rec[k] {
-						if l := localObj(info, as.Lhs[i]); l != nil {
-							rec[k] = l
+				for k := range recCar {
+					if r := plain(as.Rhs[i]); r.obj != nil && r == recCar[k] {
+						if l := carOf(as.Lhs[i]); l.obj != nil {
+							recCar[k] = l
 						}
 					}
 				}
 			}
 			return true
 		})
+	}
+	for k := range recCar {
+		rec[k] = nil
+		if recCar[k].field == "" {
+			rec[k] = recCar[k].obj
+		}
+	}
+	if rec[0] == nil || rec[1] == nil || rec[2] == nil || rec[3] == nil {
+		c.Undecidedf("R3.gate", "LoadCheckpoint/result", fn.Decl.Pos(), "the recorded checkpoint stays inside a record; the gates are not analysed in that form")
+		return
 	}
 	srcExpr, nameExpr := ast.Expr(nil), ast.Expr(nil)
 	if len(calls[0].Args) == 4 {
@@ -312,7 +426,16 @@ func (st *state) loader(load, fetch, clear *core.Fn) {
 		return
 	}
 	for _, r := range rets {
-		ok := localObj(info, r.Results[0]) == rec[0] && localObj(info, r.Results[1]) == rec[1] && localObj(info, r.Results[2]) == rec[3]
+		res := func(i int) types.Object {
+			return localObj(info, tt.Resolve(info, body, rootExpr(info, r.Results[i]), 4))
+		}
+		ok := denotes(info, body, r.Results[0], rec[0]) && denotes(info, body, r.Results[1], rec[1]) && denotes(info, body, r.Results[2], rec[3])
+		if !ok && (res(0) == nil || res(1) == nil || res(2) == nil) {
+			if _, isConst := core.IntConst(info, r.Results[2]); !isConst {
+				c.Undecidedf("R3.gate", "LoadCheckpoint/result", r.Pos(), "cannot relate the returned values `%s` to the recorded checkpoint", c.Src(r))
+				continue
+			}
+		}
 		c.Check("R3.gate", "LoadCheckpoint/result", r.Pos(), ok, "LoadCheckpoint must return (run id, offset, db) of the newest checkpoint it recorded; `"+c.Src(r)+"` returns something else")
 	}
 	isRet := func(n ast.Node) bool {
@@ -350,8 +473,8 @@ func (st *state) loader(load, fetch, clear *core.Fn) {
 		op := be.Op
 		rx, ry := tt.Resolve(info, body, be.X, 6), tt.Resolve(info, body, be.Y, 6)
 		switch {
-		case localObj(info, rx) == rec[2] && isFC(ry):
-		case localObj(info, ry) == rec[2] && isFC(rx):
+		case denotes(info, body, be.X, rec[2]) && isFC(ry):
+		case denotes(info, body, be.Y, rec[2]) && isFC(rx):
 			if m, ok := mirror[op]; ok {
 				op = m
 			}
@@ -372,7 +495,7 @@ func (st *state) loader(load, fetch, clear *core.Fn) {
 			p   string
 			val bool
 		}{{"_v != -1", true}, {"_v == -1", false}, {"_v >= 0", true}, {"_v < 0", false}} {
-			if b := pat.Expr(t.p).Match(info, f.Expr, nil); b != nil && f.Val == t.val && localObj(info, tt.Resolve(info, body, b["_v"].(ast.Expr), 6)) == rec[2] {
+			if b := pat.Expr(t.p).Match(info, f.Expr, nil); b != nil && f.Val == t.val && denotes(info, body, b["_v"].(ast.Expr), rec[2]) {
 				return true
 			}
 		}
@@ -495,6 +618,33 @@ func (st *state) loader(load, fetch, clear *core.Fn) {
 	}
 }
 
+// denotes: e is the variable o, seen through conversions and single-assignment copies.
+func denotes(info *types.Info, root ast.Node, e ast.Expr, o types.Object) bool {
+	if o == nil {
+		return false
+	}
+	cur := rootExpr(info, e)
+	for i := 0; i < 6; i++ {
+		if localObj(info, cur) == o {
+			return true
+		}
+		next := rootExpr(info, tt.Resolve(info, root, cur, 1))
+		if next == cur {
+			return false
+		}
+		cur = next
+	}
+	return false
+}
+
+// rootExpr strips conversions.
+func rootExpr(info *types.Info, e ast.Expr) ast.Expr {
+	if id := rootIdent(info, e); id != nil {
+		return id
+	}
+	return e
+}
+
 func anyFailed(c *core.Ctx, key string) bool {
 	for _, o := range c.Obs {
 		if o.Key == key && o.Status == "FAIL" {
@@ -540,8 +690,12 @@ func (st *state) clearer(fn *core.Fn) {
 	}
 	// names
 	okNames, hasOffset, detail := len(hdel.Args) > 2, false, ""
+	opaqueNames := hdel.Ellipsis.IsValid() // `hdel key fields...`: the names are in a slice
 	for _, a := range hdel.Args[2:] {
 		f := evalName(info, body, a, 3)
+		if len(f) == 1 && f[0].hole != nil {
+			opaqueNames = true // the expression cannot be evaluated to a name at all
+		}
 		role := ""
 		for r, w := range st.writer {
 			if sameShape(f, w) {
@@ -559,6 +713,8 @@ func (st *state) clearer(fn *core.Fn) {
 	}
 	if len(st.writer) < 3 {
 		c.Undecidedf("R5.clear", "ClearCheckpoint/names", hdel.Pos(), "the sender's field names are unknown")
+	} else if opaqueNames || len(hdel.Args) <= 2 {
+		c.Undecidedf("R5.clear", "ClearCheckpoint/names", hdel.Pos(), "the field names handed to hdel cannot be evaluated")
 	} else {
 		c.Check("R5.clear", "ClearCheckpoint/names", hdel.Pos(), okNames && hasOffset, "ClearCheckpoint must delete the fields the sender writes for this source, the offset among them:"+detail+" otherwise a stale, possibly larger offset of this source survives in another database and is resumed later")
 	}
@@ -633,9 +789,40 @@ func (st *state) errors(fn *core.Fn) {
 			c.Failf("R6.errors", key, call.Pos(), "the error of c.Do(%q) is discarded: a failed command is taken for 'no checkpoint' / 'cleared'", cmd)
 			continue
 		}
+		// the error may be handed on through copies (the result of an inlined helper: `err = err1`)
+		alias := map[types.Object]bool{errObj: true}
+		for changed := true; changed; {
+			changed = false
+			core.Inspect(body, func(n ast.Node) bool {
+				if as, ok := n.(*ast.AssignStmt); ok && len(as.Lhs) == len(as.Rhs) {
+					for i := range as.Rhs {
+						if r, l := core.ObjOf(info, ast.Unparen(as.Rhs[i])), core.ObjOf(info, ast.Unparen(as.Lhs[i])); r != nil && l != nil && alias[r] && !alias[l] {
+							if _, isId := ast.Unparen(as.Rhs[i]).(*ast.Ident); isId && cfgq.IsErrorType(l.Type()) {
+								alias[l] = true
+								changed = true
+							}
+						}
+					}
+				}
+				return true
+			})
+		}
+		isAliasCopy := func(as *ast.AssignStmt) bool { // `err = err1` between aliases is not an overwrite
+			if len(as.Lhs) != len(as.Rhs) {
+				return false
+			}
+			for i := range as.Lhs {
+				if l := core.ObjOf(info, ast.Unparen(as.Lhs[i])); l != nil && alias[l] {
+					if r := core.ObjOf(info, ast.Unparen(as.Rhs[i])); r == nil || !alias[r] {
+						return false
+					}
+				}
+			}
+			return true
+		}
 		isErrFact := func(f cfgq.Fact) bool {
 			be, ok := ast.Unparen(f.Expr).(*ast.BinaryExpr)
-			return ok && (be.Op == token.NEQ || be.Op == token.EQL) && (core.IsNil(info, be.Y) && core.ObjOf(info, be.X) == errObj || core.IsNil(info, be.X) && core.ObjOf(info, be.Y) == errObj)
+			return ok && (be.Op == token.NEQ || be.Op == token.EQL) && (core.IsNil(info, be.Y) && alias[core.ObjOf(info, be.X)] || core.IsNil(info, be.X) && alias[core.ObjOf(info, be.Y)])
 		}
 		// tested before it is overwritten or the function returns normally
 		w := g.Path(cfgq.Query{From: p, After: true,
@@ -645,8 +832,11 @@ func (st *state) errors(fn *core.Fn) {
 				if !ok {
 					return false
 				}
+				if isAliasCopy(as) {
+					return false
+				}
 				for _, l := range as.Lhs {
-					if id, ok := l.(*ast.Ident); ok && core.ObjOf(info, id) == errObj {
+					if id, ok := l.(*ast.Ident); ok && alias[core.ObjOf(info, id)] {
 						return true
 					}
 				}
